@@ -1,3 +1,3 @@
 From Coq Require Import Extraction ExtrOcamlBasic.
-From CyVerif Require Import Lib.CInt Model.M_Exc Model.M_ExcLab.
-Extraction "../ocaml/gen/m_exc.ml" ex_keep run_ref run_sch get handled run_lab gen g_fun desugar.
+From CyVerif Require Import Lib.CInt Model.M_Exc Model.M_ExcLab Model.M_ExcVars.
+Extraction "../ocaml/gen/m_exc.ml" ex_keep run_ref run_sch get handled run_lab gen g_fun desugar run_tmp resolve.
